@@ -60,6 +60,8 @@ class Prop(object):
                 u.append(('esk', {'cipher': 'AES128', 'recip': 'rsa2048', 'body': 'b17', 'part': part, 'parts': 16}))
         for c in self._ciphers(tier)[:2]:
             u.append(('wrongkey', {'cipher': c}))
+        for c in self._ciphers(tier)[:2]:
+            u.append(('sequence', {'cipher': c, 'depth': 3 if tier == 'quick' else 4}))
         if tier == 'thorough':
             for rc in ('pass', 'cv25519'):
                 u.append(('pairs', {'cipher': 'AES128', 'recip': rc, 'body': 'b17'}))
@@ -394,6 +396,49 @@ class Prop(object):
                 r.viol('must-raise', dict(tags, grp='passphrase-on-key-message'), case, 'passphrase decrypted a message encrypted only to %s' % rc)
         r.dim('cipher', case['cipher'])
         r.samples.append({'wrong_passphrases': [repr(w)[:20] for w in wrongs[:4]], 'non_recipient_keys': others})
+        return r
+
+    def c_sequence(self, case):
+        """Every sequence (up to the depth bound) of decryption attempts on ONE message object: right / wrong passphrase, recipient / non-recipient key,
+        and the same on a tampered copy. Each attempt's outcome is a function of the message and the secret alone - a success before must not open
+        the message for a wrong secret afterwards, a failure before must not spoil a right one."""
+        import itertools
+        import pgpy
+        r = Res()
+        m, blob = self._base(case['cipher'], 'pass', BODIES['b17'], second='cv25519')
+        pk = self._split(blob)
+        tampered = bytearray(blob)
+        tampered[-3] ^= 0x10
+        menu = ['right-pass', 'wrong-pass', 'empty-pass', 'right-key', 'wrong-key']
+        expect = {'right-pass': 'same', 'right-key': 'same', 'wrong-pass': 'error', 'empty-pass': 'error', 'wrong-key': 'error'}
+        seqs = [tuple(case['only'])] if case.get('only') else [s for k in range(2, case['depth'] + 1) for s in itertools.product(menu, repeat=k)]
+        for target, data in (('intact', blob), ('tampered', bytes(tampered))):
+            if case.get('target') and case['target'] != target:
+                continue
+            for seq in seqs:
+                r.states += 1
+                e = pgpy.PGPMessage.from_blob(data)
+                for step, op in enumerate(seq):
+                    r.transitions += 1
+                    try:
+                        if op.endswith('pass'):
+                            d = e.decrypt({'right-pass': R.PASSPHRASE, 'wrong-pass': R.PASSPHRASE + 'x', 'empty-pass': ''}[op])
+                        else:
+                            d = R.key_recipient('cv25519' if op == 'right-key' else 'cv25519-other')[0].decrypt(e)
+                        oc = 'same' if (d is not e and A.msg_view(d) == self._view(m)) else 'different'
+                    except A.HarnessBinding:
+                        raise
+                    except Exception:
+                        oc = 'error'
+                    want = expect[op] if target == 'intact' else 'error'
+                    r.outcomes['sequence:%s' % oc] += 1
+                    if oc != want:
+                        r.viol('sequence', {'where': 'sequence', 'op': op, 'got': oc, 'target': target, 'first_step': step == 0},
+                               {'cipher': case['cipher'], 'depth': case['depth'], 'only': list(seq[:step + 1]), 'target': target},
+                               '%s message, attempts %s on one object: attempt #%d (%s) gave %s, expected %s' % (target, list(seq[:step + 1]), step + 1, op, oc, want))
+                        break
+        r.dim('cipher', case['cipher'])
+        r.samples.append({'sequence': list(seqs[-1]), 'menu': menu})
         return r
 
     def c_pairs(self, case):
